@@ -69,7 +69,7 @@ def floors(tier):
         f.update({'subcase:judged': 250, 'probe:strong': 180, 'build:make': 100,
                   'calibration:reference-build': 450,
                   'probe:pair-vs-reference': 50, 'multi:judged': 20,
-                  'mix:judged': 10, 'libvar:judged': 16, 'envdir:judged': 12,
+                  'mix:judged': 10, 'libvar:judged': 16, 'envdir:judged': 12, 'directed:judged': 4,
                   'libvar:prebuilt-static-beside-shared': 4,
                   'mix:multi-then-single': 6,
                   'distinct_nontrivial': 180, 'lang:c': 120, 'lang:c++': 120})
@@ -335,6 +335,9 @@ def cases(tier, seed):
             yield case
     if not flt or re.search(flt, 'envdir'):
         for case in gen_envdir(tier, seed):
+            yield case
+    if not flt or re.search(flt, 'directed'):
+        for case in gen_directed(tier, seed):
             yield case
     if flt:
         subs = [s for s in subs if re.search(flt, '%s %s %s' % (
@@ -900,6 +903,8 @@ def run_case(case):
         return run_libvar(case, res)
     if case.get('kind') == 'envdir':
         return run_envdir(case, res)
+    if case.get('kind') == 'directed':
+        return run_directed(case, res)
     res.evaluations = len(case['subs'])
     found = run_project(case, res)
     seen = set()
@@ -1660,6 +1665,85 @@ def run_envdir(case, res):
                     dict(base_w, stage='build' if not ob['built'] else 'probe', differing=diff,
                          observed={k: ob.get(k) for k in diff},
                          bfg_commands=tag_lines(mout, t), make_output=mout[-800:]))
+        return res
+    finally:
+        core.rmtree(root)
+
+
+# --------------------------------------------------------------------------
+# hand-written combinations of two targets that share one option-carrying object
+#
+# Each is a complete little project; the model is simply: it configures, builds, and the
+# program exits 0 (the sources check the option's effect themselves).
+
+DIRECTED = {
+    # one precompiled_header() object used by a shared library (implicit -fPIC) AND an
+    # executable (no -fPIC): each user must get a precompiled header it can use
+    'pch-object-shared-by-shlib-and-exe': {
+        'build.bfg': "pch = precompiled_header(file='pre@HEXT@')\n"
+                     "lib = shared_library('l', files=['l@EXT@'], pch=pch)\n"
+                     "exe = executable('prog', files=['m@EXT@'], libs=[lib], pch=pch)\n",
+        'pre@HEXT@': '#define PRE 1\n',
+        'l@EXT@': '#ifdef __cplusplus\nextern "C"\n#endif\nint lf(void) { return PRE; }\n',
+        'm@EXT@': '#ifdef __cplusplus\nextern "C"\n#endif\nint lf(void);\n'
+                  'int main(void) { return lf() - PRE; }\n'},
+    # the same object for two executables with the same flags (control: must work)
+    'pch-object-shared-by-two-exes': {
+        'build.bfg': "pch = precompiled_header(file='pre@HEXT@')\n"
+                     "one = executable('one', files=['l@EXT@', 'm@EXT@'], pch=pch)\n"
+                     "exe = executable('prog', files=['l@EXT@', 'm@EXT@'], pch=pch)\n",
+        'pre@HEXT@': '#define PRE 1\n',
+        'l@EXT@': '#ifdef __cplusplus\nextern "C"\n#endif\nint lf(void) { return PRE; }\n',
+        'm@EXT@': '#ifdef __cplusplus\nextern "C"\n#endif\nint lf(void);\n'
+                  'int main(void) { return lf() - PRE; }\n'},
+}
+
+
+def gen_directed(tier, seed):
+    compilers = ['gcc'] if tier == 'quick' else ['gcc', 'clang']
+    for compiler in compilers:
+        for lang in ('c', 'c++'):
+            for name in sorted(DIRECTED):
+                yield {'kind': 'directed', 'compiler': compiler, 'lang': lang, 'variant': name}
+
+
+def run_directed(case, res):
+    compiler, lang, name = case['compiler'], case['lang'], case['variant']
+    ext = R.LANGS[lang]['ext']
+    res.evaluations = 1
+    root = core.mkscratch('c16d')
+    src, bld = os.path.join(root, 'src'), os.path.join(root, 'bld')
+    try:
+        hext = '.hpp' if lang == 'c++' else '.h'
+        files = {k.replace('@EXT@', ext).replace('@HEXT@', hext):
+                 v.replace('@EXT@', ext).replace('@HEXT@', hext)
+                 for k, v in DIRECTED[name].items()}
+        proj.write_tree(src, files)
+        env = core.base_env({'CC': R.COMPILERS[compiler]['c'], 'CXX': R.COMPILERS[compiler]['c++']})
+        res.ev('directed:judged')
+        res.ev('subcase:judged')
+        res.ev('lang:' + lang)
+        res.ev('compiler:' + compiler)
+        res.key([compiler, lang, 'directed', name], True)
+        res.classes.add('directed:' + name)
+        w = {'compiler': compiler, 'lang': lang, 'variant': name, 'opt': 'pch', 'val': name,
+             'place': 'two-targets', 'bfg_text': files['build.bfg']}
+        rc, cout = proj.configure(src, bld, 'make', env=env)
+        res.ev('build:configure')
+        if rc != 0:
+            res.violate(('configure-failed', 'directed', name), dict(w, output=cout[-600:]))
+            return res
+        rc, mout = proj.build(bld, 'make', targets=['all'], extra=['-k'], env=env, timeout=600)
+        res.ev('build:make')
+        exe = os.path.join(bld, 'prog')
+        if rc != 0 or not os.path.isfile(exe):
+            res.violate(('build-failed', 'directed', name), dict(w, output=mout[-900:]))
+            return res
+        r, out = core.run([exe], env=core.base_env(), timeout=60, cwd=bld)
+        if r != 0:
+            res.violate(('effect-differs', 'directed', name), dict(w, run_rc=r, output=out[-300:]))
+        res.sample = {'variant': name, 'compiler': compiler, 'lang': lang,
+                      'bfg_commands': [l for l in mout.splitlines() if ' -c ' in l][:4]}
         return res
     finally:
         core.rmtree(root)
